@@ -45,6 +45,8 @@ theorem C08_open_preserves_files (opt : Opts) (fs : List File) :
   simp only
   split
   · rfl
-  · exact (replay_files _ _ _).1
+  · split
+    · rfl
+    · exact (replay_files _ _ _).1
 
 end NutsProofs.C08
